@@ -45,7 +45,7 @@ CLAIMED = {
         "3 C06",
     ),
     "C08": (
-        "IBAN.generate is executed on symbolic component strings (quick: full widths, each component one shorter/longer, empty branch, combined bank+branch width, for the 19 computing countries + DE, GB + 8 seeded others; thorough: every length 0..width+2 per component and seeded triples for all countries); per path the solver shows the outcome is a valid IBAN whose component fields equal the upper-cased, zero-padded inputs (combined bank+branch split), or a library error of the component-specific class when a component is over-long.",
+        "IBAN.generate is executed on symbolic component strings (quick: full widths, each component one longer, account one shorter, combined bank+branch width, for the 19 computing countries + DE, GB + 4 seeded others; thorough: every length 0..width+2 per component and seeded triples for all countries); per path the solver shows the outcome is a valid IBAN whose component fields equal the upper-cased, zero-padded inputs (combined bank+branch split), or a library error of the component-specific class when a component is over-long.",
         "Alphabet: ASCII digits/letters and all upper-case-stable code points (whitespace/expanding/non-ASCII case-changing code points: Lemma N on clean()). A combined-width bank code together with a non-empty branch code is outside the claim.",
         "3 C08",
     ),
